@@ -13,6 +13,13 @@ PROPS = {
     note=TB + "Concurrent callers of updateConnectionState (check-then-act) are C21's subject, not modelled here; the handler goroutine is awaited by the hook.",
     assumptions=["updateConnectionState is called sequentially (concurrent check-then-act is C21)"],
     design_ref="§6 C22"),
+ "C36": dict(
+    level="proof",
+    technique="Lean 4 round-trip / refusal / rejection theorems over a byte-level model of rtpdump Writer+Reader (list induction, unbounded packet lists and sizes) + seeded differential correspondence through the public API",
+    text="pkg/media/rtpdump is modelled byte for byte in Lean (Header/Packet Marshal, NewWriter incl. the preamble text, NewReader incl. the preamble regular expression and bufio semantics, Reader.Next with io.ReadFull outcomes). C36_file_roundtrip proves that every representable header and every list of representable packets (any length, payloads 1..65527) reads back exactly; C36_writer_refuses_* / C36_refusal_writes_nothing prove the writer refuses what the format cannot hold without writing anything for it; C36_reader_rejects_short / C36_reader_payload_exact prove length fields below 8 are rejected and a returned payload is exactly the Length−8 bytes of its record. The model is tied to the code by writing/reading generated files with the real package (boundary sizes 0..70000, IPv4/IPv6/nil sources, out-of-range times and offsets, raw record streams with every length field 0..20, truncations, bit flips) and comparing byte hashes and parse results with the model; the Lean judge re-evaluates the three clauses on the implementation's outputs.",
+    note=TB + "Reduced-precision values (sub-microsecond start, sub-millisecond offset, empty RTP payload which reads back as RTCP) are outside both the round-trip and the refusal clause and are left unconstrained. time.Time.UnixNano overflow (years < 1678 or > 2262) is outside the model.",
+    assumptions=["bufio.Reader/io.ReadFull/regexp behave as modelled (exercised by the correspondence run)"],
+    design_ref="§6 C36"),
 }
 
 LEVELS = {k: v["level"] for k, v in PROPS.items()}
